@@ -152,6 +152,7 @@ type world struct {
 	armed    map[string]bool
 	mustDone int           // call that the reply just sent must complete (-1 = none)
 	dirty    bool          // a loss, malformed bytes or a Close happened: later calls may complete by themselves
+	readerUp bool          // the session's read loop has been seen on a stack at least once
 	callsMu  sync.Mutex    // calls is appended to by the relay handler too
 	relays   int32         // relay handlers that have issued their call and wait for it
 	poolHold chan struct{} // non-nil: harness goroutines occupy every free slot of the goroutine pool
@@ -380,6 +381,14 @@ func (w *world) settle() (string, bool) {
 		d := GoroutineDump()
 		rc := w.readerClassIn(d)
 		if rc == "other" {
+			return false
+		}
+		// the read loop is started on a goroutine of its own by ServeConn: on a busy machine the
+		// first snapshot can come before that goroutine has run at all. "gone" is an observation
+		// only once the loop has been seen, or after something that can end it.
+		if rc != "gone" {
+			w.readerUp = true
+		} else if !w.readerUp && !w.dirty && !w.lost && !w.closing {
 			return false
 		}
 		if rc == "reading" && w.processed() < w.sent {
